@@ -41,6 +41,8 @@ fn generate_book_data() -> Result<(), BuildError> {
             book = book_contents
                 .trim()
                 .split("\n\n")
+                // A missing tag can leave an extra blank line in front of the movetext
+                .map(|c| c.trim_start())
                 .filter(|c| c.starts_with("1."))
                 .try_fold(book, |mut book, movetext| {
                     let moves = BookParser::parse_movetext(movetext, &hasher)
